@@ -72,10 +72,11 @@ func runNumProfile(profile string, thorough bool, seed int64, out string, shards
 				defer wg.Done()
 				// burst: all goroutines make their FIRST bit-depth calls of the process at the same instant (spin
 				// barrier), results kept in memory and written out afterwards
+				rs := make([]burstRes, 0, 64)
 				atomic.AddInt32(&ready, 1)
 				for atomic.LoadInt32(&ready) < int32(len(ws)) {
 				}
-				burst := depthBurst(i)
+				burst := depthBurst(i, rs)
 				ws[i].start(&NEvent{Fam: "depth", Fn: "BitDepth-burst"})
 				for _, e := range burst {
 					ws[i].emit(e)
